@@ -443,6 +443,16 @@ nor lets `libxmp_mixer_on` overwrite, plus everything it reads -/
 def B (f : Field) : Bool := (A7 f && !(StartWrites f || MixerWrites f)) || StartReads f
 def B8 (f : Field) : Bool := B f || MixerWrites f
 
+/-- Members a successful load gives a history-independent value whatever they held before (written
+unconditionally by the wrappers, the prologue, the epilogue or the scan).  The harness *poisons*
+every non-pointer member of this set on the reused context before the load (and `StartResets`
+before `xmp_start_player`) and requires the image afterwards to equal the fresh context's:
+reset completeness is thereby tested per member, independently of which modules a history played. -/
+def LoadResets (f : Field) : Bool := NameField f || PrologueWrites f || EpilogueWrites f || ScanFull f
+
+/-- Members `xmp_start_player` rewrites without reading them (so they may hold anything before) -/
+def StartResets (f : Field) : Bool := (StartWrites f || MixerWrites f) && !StartReads f && f != .state
+
 
 /-! ## Process-wide writable data: the two lazily filled tables -/
 
